@@ -142,6 +142,15 @@ ALL_ACTIONS = ('Start', 'DrOp', 'DrSync', 'DrUp', 'DrBody', 'TtAddReadClock', 'T
                'TtWrDecInProgress', 'PoolDrained')
 
 
+def incomplete(ctx, tot, tr, label):
+    """an execution that does not finish (deadlock, step bound, crash of the code under test) is a violation;
+    what happened before it is judged by TLC (the trace ends with the event)"""
+    if tot and tot.get('executions', 0) != tot.get('completed', 0):
+        path = ctx.save_replay('%s-incomplete.txt' % ctx.prop, '%s: driver totals %s\n\n%s' %
+                               (label, tot, ctx._trace_context(tr, sum(1 for _ in open(tr)))))
+        ctx.violation('driver:incomplete:' + label, WHAT + ': a controlled execution did not run to completion (%s)' % label, path)
+
+
 def cat(files, out):
     with open(out, 'w') as g:
         for f in files:
@@ -198,6 +207,7 @@ def run(ctx):
     execs = 0
     tr = os.path.join(ctx.work, 'cover.ndjson')
     tot, _ = ctx.driver(exe, ['--out', tr, '--scen', cover_scen, '--schedules', sched], WHAT, label='cover replay')
+    incomplete(ctx, tot, tr, 'cover replay')
     traces.append(tr)
     execs += tot.get('completed', 0)
     ctx.sample_trace(tr, 14, skip=8)
@@ -217,11 +227,7 @@ def run(ctx):
                             WHAT, label='random scenarios pct%d' % pct, allow_incomplete=True)
         traces.append(tr)
         execs += tot.get('completed', 0)
-        if tot and tot.get('executions', 0) != tot.get('completed', 0):
-            # an execution that does not finish (deadlock, step bound, crash of the code under test) is a
-            # violation; what happened before it is judged by TLC below (the trace ends with the event)
-            path = ctx.save_replay('%s-incomplete.txt' % ctx.prop, 'driver totals %s\n\n%s' % (tot, ctx._trace_context(tr, sum(1 for _ in open(tr)))))
-            ctx.violation('driver:incomplete', WHAT + ': a controlled execution did not run to completion', path)
+        incomplete(ctx, tot, tr, 'random scenarios pct%d' % pct)
 
     # E3 ---------------------------------------------------------------------------------------
     allt = cat(traces, os.path.join(ctx.work, 'all.ndjson'))
